@@ -58,17 +58,35 @@ def memmem_scan_rule(rep, mod, rule='R-MEMMEM-SCAN'):
     if len(f.loops) != 1:
         raise AnalysisBroken('igris_memmem: expected one scanning loop, found %d' % len(f.loops))
     L = f.loops[0]
-    phis = [i for i in L['header'].insts if i.op == 'phi' and i.ty.get('k') == 'ptr']
+    phis = [i for i in L['header'].insts if i.op == 'phi' and i.ty.get('k') in ('ptr', 'int')]
     if len(phis) != 1:
-        raise AnalysisBroken('igris_memmem: scanning loop has no single pointer cursor')
+        raise AnalysisBroken('igris_memmem: scanning loop has no single cursor (pointer or offset)')
     cur = phis[0]
+    CUR = ({('i', cur.id): 1}, 0)
     A = {k: ('a', k) for k in range(4)}
+    # the scanned POSITION as a linear form of the cursor: the cursor itself (pointer walk) or haystack + offset (index
+    # walk); taken from the candidate handed to memcmp.  All clauses below are stated on positions, so they do not
+    # depend on which of the two forms the loop is written in.
+    delta = ({}, 0)
+    for c in f.calls('memcmp'):
+        if c.block in L['blocks']:
+            P = lin_of(f, c.ops[0])
+            if P[0].get(('i', cur.id)) == 1:
+                delta = lsub(P, CUR)
+
+    def ladd(a, b):
+        t = dict(a[0])
+        for k, cf in b[0].items():
+            t[k] = t.get(k, 0) + cf
+            if t[k] == 0:
+                del t[k]
+        return t, a[1] + b[1]
     init = step = None
     for (bb, v) in cur.incoming:
         if f.bmap[bb] in L['blocks']:
-            step = lsub(lin_of(f, v), ({('i', cur.id): 1}, 0))
+            step = lsub(lin_of(f, v), CUR)
         else:
-            init = lin_of(f, v)
+            init = ladd(lin_of(f, v), delta)
     ok = init == ({A[0]: 1}, 0)
     rep.inst(rule, name, 'scan-starts-at-first-byte', ok, where,
              None if ok else 'the cursor starts at %r, not at the haystack pointer' % (init,))
@@ -89,7 +107,7 @@ def memmem_scan_rule(rep, mod, rule='R-MEMMEM-SCAN'):
                 pred = {'ule': 'uge', 'ult': 'ugt', 'uge': 'ule', 'ugt': 'ult', 'ne': 'ne'}[pred]
             stay = f.bmap[t.d['t']] in L['blocks']
             if lin_of(f, a) == ({('i', cur.id): 1}, 0) and stay:
-                bound = lin_of(f, b)
+                bound = ladd(lin_of(f, b), delta)
                 last = ({A[0]: 1, A[1]: 1, A[3]: -1}, 0)      # l + l_len - s_len
                 beyond = ({A[0]: 1, A[1]: 1, A[3]: -1}, 1)
                 if pred == 'ule':
@@ -120,7 +138,7 @@ def memmem_scan_rule(rep, mod, rule='R-MEMMEM-SCAN'):
     detail = 'no return of the cursor inside the scanning loop'
     if got is not None:
         v, blk, tgt = got
-        isc = lin_of(f, v) == ({('i', cur.id): 1}, 0)
+        isc = lin_of(f, v) == ladd(CUR, delta)
         guarded = False
         t = blk.term
         if t.op == 'br' and 'f' in t.d and t.ops[0].k == 'inst':
@@ -131,8 +149,7 @@ def memmem_scan_rule(rep, mod, rule='R-MEMMEM-SCAN'):
                 zero = t.d['t'] if c.pred == 'eq' else t.d['f']
                 if call is not None and call.op == 'call' and call.callee == 'memcmp' and (tgt is None or f.bmap[zero] is tgt):
                     a0, a1, a2 = [lin_of(f, o) for o in call.ops[:3]]
-                    guarded = {0: a0, 1: a1}.get(0) == ({('i', cur.id): 1}, 0) and a1 == ({A[2]: 1}, 0) and \
-                        a2 == ({A[3]: 1}, 0)
+                    guarded = a0 == ladd(CUR, delta) and a1 == ({A[2]: 1}, 0) and a2 == ({A[3]: 1}, 0)
         ok = isc and guarded
         detail = None if ok else ('the value returned from the loop is %s and the return is %s by '
                                   'memcmp(cursor, s, s_len) == 0' % ('the cursor' if isc else 'not the cursor',
